@@ -55,6 +55,13 @@ def mbqm(x, q, shift):
     return rdbpot(srdhm(x * (1 << left), q), right)
 
 
+def mbqm64(x, q, shift):
+    """MultiplyByQuantizedMultiplier(int64_t x, ...) of kernels/internal/common.h: 16-bit reduced multiplier, one rounding"""
+    rm = ((q + (1 << 15)) >> 16) if q < 0x7FFF0000 else 0x7FFF
+    total = 15 - shift
+    return (x * rm + (1 << (total - 1))) >> total
+
+
 def act_range(act, dtype, scale, zp):
     qmin, qmax = QRANGE[dtype]
 
@@ -242,21 +249,30 @@ class Ref:
             res.append(min(hi, max(lo, mbqm(raw, qo, sho) + int(zo))))
         return np.array(res, dtype=np.int64).reshape(a.shape)
 
-    def _requant(self, acc, ins0, w_idx, out_idx, act, oc):
+    def _requant(self, acc, ins0, w_idx, out_idx, act, oc, float_product=False):
+        """output stage of conv / depthwise / fully connected. float_product: GetQuantizedConvolutionMultipler (uint8 and
+        fully connected) multiplies the two input scales in float32; PopulateConvolutionQuantizationParams in double"""
         sci, zpi = self.quant(ins0)
         scw, zpw = self.quant(w_idx)
         sco, zpo = self.quant(out_idx)
         t = self.tens(out_idx)
-        if t["type"] not in ("int8", "uint8"):
+        if t["type"] not in ("int8", "uint8", "int16"):
             raise Unsupported("output type %s" % t["type"])
+        wide = t["type"] == "int16"
         lo, hi = act_range(act, t["type"], sco[0], zpo[0])
         out = np.empty(acc.shape, dtype=np.int64)
         for c in range(oc):
             sw = scw[c] if len(scw) > 1 else scw[0]
-            # PopulateConvolutionQuantizationParams: double(input_scale) * double(filter_scale) / double(output_scale)
-            q, shift = quantize_multiplier(float(sci[0]) * float(sw) / float(sco[0]))
+            if float_product or t["type"] == "uint8":
+                real = float(np.float32(sci[0]) * np.float32(sw)) / float(sco[0])
+            else:
+                real = float(sci[0]) * float(sw) / float(sco[0])
+            q, shift = quantize_multiplier(real)
             col = acc[..., c].reshape(-1)
-            res = [min(hi, max(lo, mbqm(int(a), q, shift) + zpo[0])) for a in col]
+            if wide:
+                res = [min(hi, max(lo, mbqm64(int(a), q, shift) + zpo[0])) for a in col]
+            else:
+                res = [min(hi, max(lo, mbqm(int(a), q, shift) + zpo[0])) for a in col]
             out[..., c] = np.array(res, dtype=np.int64).reshape(acc[..., c].shape)
         return out
 
@@ -267,8 +283,10 @@ class Ref:
         bias = self.const(ins[2]) if len(ins) > 2 and ins[2] >= 0 else None
         sci, zpi = self.quant(ins[0])
         scw, zpw = self.quant(ins[1])
-        if self.tens(ins[0])["type"] not in ("int8", "uint8"):
+        if self.tens(ins[0])["type"] not in ("int8", "uint8", "int16"):
             raise Unsupported("input type")
+        if self.tens(ins[0])["type"] == "int16" and bias is not None and self.tens(ins[2])["type"] != "int64":
+            raise Unsupported("int16 with 32-bit bias (another accumulator path of the reference)")
         sh, sw_ = o.get("StrideH", 1), o.get("StrideW", 1)
         dh, dw = o.get("DilationHFactor", 1), o.get("DilationWFactor", 1)
         n, H, W, C = x.shape
@@ -324,13 +342,15 @@ class Ref:
         if bias is not None:
             acc = acc + bias.reshape([1, -1])
         acc = acc.reshape(self.tens(out_idx)["shape"])
-        return self._requant(acc, ins[0], ins[1], out_idx, o.get("FusedActivationFunction", 0), oc)
+        if self.tens(ins[0])["type"] == "int16" and bias is not None and self.tens(ins[2])["type"] != "int64":
+            raise Unsupported("int16 with 32-bit bias (another accumulator path of the reference)")
+        return self._requant(acc, ins[0], ins[1], out_idx, o.get("FusedActivationFunction", 0), oc, float_product=True)
 
     def pool(self, x, in_idx, out_idx, o, is_max):
         sci, zpi = self.quant(in_idx)
         sco, zpo = self.quant(out_idx)
         t = self.tens(out_idx)
-        if t["type"] not in ("int8", "uint8"):
+        if t["type"] not in ("int8", "uint8", "int16"):
             raise Unsupported("pool type")
         if not is_max and (sci[0] != sco[0] or zpi[0] != zpo[0]):
             raise Unsupported("requantising average pool")
@@ -361,7 +381,7 @@ class Ref:
                     if cnt != kh * kw:
                         self.padded_avg = True
                     s = win.sum(axis=0)
-                    if t["type"] == "int8":
+                    if t["type"] in ("int8", "int16"):
                         v = np.array([(int(a) + cnt // 2) // cnt if a > 0 else -((-int(a) + cnt // 2) // cnt) for a in s])
                     else:
                         v = np.array([(int(a) + cnt // 2) // cnt for a in s])
